@@ -34,6 +34,15 @@ def run():
     # verified protocol's steps - a task whose deferred resume is dropped never completes
     (wake,) = vlib.build_harness(["wake_harness"])
     steptrace.check_steps(chk, vlib, wake, 18 if chk.thorough() else 6)
+    # the same hand-off with duplicate wake-ups racing on one suspended task (two wakers must not both
+    # win: the task would be queued twice and run on two workers); a detector in the target's body reports
+    # an overlapping execution, TLC judges the histories against WakeAbs
+    runs = [([chk.seed * 1000 + 800 + i, 80, 1 if i % 3 else 0, "--pika:threads=%d" % [4, 3, 2][i % 3]], None)
+            for i in range(24 if chk.thorough() else 8)]
+    hw = vlib.collect_histories(chk, wake, runs, "c01w", timeout=400)
+    for h, o in hw:
+        chk.add_case(("wake", str(h[:6])), nontrivial=sum(1 for r in h if r.get("e") == "wake") >= 2)
+    vlib.check_histories(chk, "WakeTrace", "WakeTrace.cfg", hw, "c01w", batch=300)
     chk.cov["rule"] = ("task forests (children, yields, blocking, priorities high/normal/low, stack sizes "
                        "small..large, submitters inside and outside the runtime) on 8 scheduling policies x 1-4 "
                        "workers with delays injected at the scheduling-loop / thread_queue / state-word hooks; "
